@@ -341,7 +341,21 @@ def glob_elem(rng):
     return ["g", 4, base, base + 65535, "%d.%d.*.*" % (a, b)]
 
 
-def rand_elem(rng, arenas, wide=0.08):
+def coarse_elem(rng, coarse):
+    """a coarse block at the bottom or top of a family: adjacent ones are siblings that merge up towards /0.
+    coarse = (version, p0): the history works with prefixes p0 and p0+1 so that sibling pairs meet often"""
+    ver, p0 = coarse
+    if rng.random() < 0.15:
+        ver = 10 - ver
+    w = gens.W[ver]
+    p = min(w, max(1, p0 + rng.choice([0, 0, 0, 1, 1, -1])))
+    i = rng.choice([0, 0, 0, 1, 1, 1, 2, 3, 2 ** p - 1, 2 ** p - 2]) % (2 ** p)
+    return [rng.choice(["n", "s"]), ver, i << (w - p), p]
+
+
+def rand_elem(rng, arenas, wide=0.08, coarse=None):
+    if coarse is not None and rng.random() < 0.75:
+        return coarse_elem(rng, coarse)
     if rng.random() < wide:
         k = rng.random()
         if k < 0.15:
@@ -389,22 +403,30 @@ def rand_elem(rng, arenas, wide=0.08):
     return ["r", ver, s, e]
 
 
-def rand_sarg(rng, arenas):
+def rand_sarg(rng, arenas, coarse=None):
     k = rng.random()
     if k < 0.08:
         return ["none"]
     if k < 0.25:
         return ["set", rng.randrange(NREG)]
     if k < 0.45:
-        e = rand_elem(rng, arenas)
+        e = rand_elem(rng, arenas, coarse=coarse)
         while e[0] not in ("n", "r", "g"):
-            e = rand_elem(rng, arenas)
+            e = rand_elem(rng, arenas, coarse=coarse)
         return e
-    return ["iter", [rand_elem(rng, arenas) for _ in range(rng.randint(0, 7))]]
+    return ["iter", [rand_elem(rng, arenas, coarse=coarse) for _ in range(rng.randint(0, 7))]]
 
 
 def rand_history(rng, n, weights):
     arenas = rng.sample(SMALL_ARENAS, rng.choice([1, 1, 2, 3]))
+    coarse = None                                     # a history about coarse blocks of one family
+    if rng.random() < 0.15:
+        cv = rng.choice((4, 6, 6))
+        coarse = (cv, rng.randint(1, 33 if cv == 6 else 7))
+    _re = rand_elem
+
+    def rand_elem_(rng_, arenas_, wide=0.08):
+        return _re(rng_, arenas_, wide=wide, coarse=coarse)
     ops = []
     names = list(weights)
     wts = [weights[k] for k in names]
@@ -412,11 +434,11 @@ def rand_history(rng, n, weights):
         name = rng.choices(names, wts)[0]
         r = rng.randrange(NREG if rng.random() < 0.5 else 2)
         if name == "init":
-            ops.append(["init", r, rand_sarg(rng, arenas)])
+            ops.append(["init", r, rand_sarg(rng, arenas, coarse)])
         elif name in ("add", "remove"):
-            ops.append([name, r, rand_elem(rng, arenas)])
+            ops.append([name, r, rand_elem_(rng, arenas)])
         elif name == "update":
-            a = rand_sarg(rng, arenas)
+            a = rand_sarg(rng, arenas, coarse)
             ops.append(["update", r, a])
         elif name in ("clear", "compact", "pickle", "pop", "view"):
             ops.append([name, r])
@@ -425,9 +447,9 @@ def rand_history(rng, n, weights):
         elif name in ("union", "inter", "diff", "xor"):
             ops.append([name, r, rng.randrange(NREG), rng.randrange(NREG)])
         elif name == "contains":
-            e = rand_elem(rng, arenas, wide=0.03)
+            e = rand_elem_(rng, arenas, wide=0.03)
             while e[0] not in ("n", "s", "a", "as"):
-                e = rand_elem(rng, arenas, wide=0.03)
+                e = rand_elem_(rng, arenas, wide=0.03)
             if e[0] == "s":
                 e[0] = "n"
             if e[0] == "as":
